@@ -9,7 +9,7 @@ TOL = 2.0 ** -40          # ~ 9.1e-13 (the property's 1e-12 is not a dyadic lite
 PROP = {
     "id": "C09",
     "quick_n": 330,
-    "thorough_n": 5000,
+    "thorough_n": 3300,
     "rule": "one program = tree spec S, a single-point mutation S' of it (one numeric parameter, "
             "one extra trailing center/edge/threshold/child, one nested child, one quantity name or "
             "code, Count transform, label key), a, a twin and b = S' filled with the same stream, "
